@@ -1,11 +1,12 @@
 import Rooc.WireModel
 import Rooc.Ref
 import Rooc.Oracle
+import Rooc.Drv.C01
 namespace Rooc.Drv.C03
 open Rooc Sexp Sem
 
-def handle (α : Type) [Arith α] [Wire α] : List Sexp → Sexp
-  | _ => app "err" [.atom "bad-request"]
+/-- the compiler half of the pipeline is diffed through C01's requests (`linearize-full`). -/
+def handle (α : Type) [Arith α] [Wire α] : List Sexp → Sexp := Drv.C01.handle α
 
 def decAssign : Sexp → Option (List (String × Rat))
   | .list (.atom "assign" :: ps) => optAll (ps.map fun
